@@ -30,7 +30,9 @@ reference writer. This file connects the two:
   - `contig_views`: every descriptor of every contig of `archOf` loads, and the loaded views are the
     writer's pieces (`cutPieces`), which tile the contig;
   - the answers: `answer_listContigs_written`, `answer_getContig_written`, `answer_getSample_written`,
-    `contig_range_view` (for C07), error side `answer_unknown_sample`, `answer_unknown_contig`.
+    `contig_range_view` (for C07), error side `unknownContig_written`;
+  - `planned_of_minMatch`: the planner answers whenever `min_match_len ≥ 4`, so "the writer answers"
+    can be replaced by that inequality in all `archOf`-level theorems (`Planned`).
 
 The theorems a reader of the property wants are re-stated in `Props/C08.lean`
 (`reader_answers_input`, …) and `Props/C07.lean` (`range_on_written_archive`, …).
@@ -48,7 +50,8 @@ The theorems a reader of the property wants are re-stated in `Props/C08.lean`
 3. Sample names must be pairwise distinct and contig names distinct inside each sample
    (`NamesDistinct`, decidable) for the answers to be "the input's": the handle resolves a sample name
    to the LAST sample so called and a contig name to the FIRST contig so called (`lookup`,
-   `findContig`); the index-based lemmas (`…_at`) hold without the hypothesis.
+   `findContig`); the index-based lemmas (`piece_loads`, `contig_views`, `contigsOf_archOf` with its
+   explicit `lookup … = some s` hypothesis) hold without it.
 4. That the REAL writer is an instance of `writeArchive` is the C02 harness's byte identity, as for
    `read_write`.
 -/
@@ -514,6 +517,74 @@ theorem planned_of_writeArchive (cfg : Cfg) (inp : List Writer.Sample) (dec : De
     Planned cfg inp dec := by
   obtain ⟨outs, hwg, _⟩ := writeArchive_unpack cfg inp dec zc bs hw
   exact planned_of_writeGroups cfg inp dec zc outs hwg
+
+/-! ## the planner answers whenever `min_match_len ≥ HASHING_STEP` -/
+
+theorem mapM_isSome {α β : Type} (f : α → Option β) :
+    ∀ l : List α, (∀ x ∈ l, ∃ y, f x = some y) → ∃ r, l.mapM f = some r := by
+  intro l
+  induction l with
+  | nil => intro _; exact ⟨[], rfl⟩
+  | cons a l ih =>
+    intro h
+    obtain ⟨y, hy⟩ := h a (by simp)
+    obtain ⟨r, hr⟩ := ih (fun x hx => h x (by simp [hx]))
+    exact ⟨y :: r, by simp [List.mapM_cons, hy, hr]⟩
+
+/-- under well-formed decisions every piece the decisions name has its stored form -/
+theorem stored_of_piece (cfg : Cfg) (inp : List Writer.Sample) (dec : Decisions) (hok : DecOK cfg inp dec)
+    (r : PieceRef) (d : PieceDec) (h : lookup3 dec.pieces r = some d) :
+    ∃ x, lookup3 (storedAll cfg.k inp dec) r = some x := by
+  obtain ⟨dcs, ds, h3, h4, h5⟩ := lookup3_get _ _ _ h
+  have hs : r.1 < inp.length := by
+    rw [← hok.shape]; exact (List.getElem?_eq_some_iff.mp h3).1
+  have h1 : inp[r.1]? = some inp[r.1] := List.getElem?_eq_getElem hs
+  have hS := hok.samples _ (mem_zip_of_get _ _ _ _ _ h1 h3)
+  have hc : r.2.1 < inp[r.1].contigs.length := by
+    have hsh : dcs.length = inp[r.1].contigs.length := hS.shape
+    rw [← hsh]; exact (List.getElem?_eq_some_iff.mp h4).1
+  have h2 : inp[r.1].contigs[r.2.1]? = some inp[r.1].contigs[r.2.1] := List.getElem?_eq_getElem hc
+  have hj : r.2.2 < (cutPieces cfg.k inp[r.1].contigs[r.2.1].data (ds.map (·.len))).length := by
+    rw [cutPieces_length]
+    simpa using (List.getElem?_eq_some_iff.mp h5).1
+  exact ⟨_, stored_lookup cfg.k inp dec r.1 r.2.1 r.2.2 _ _ dcs ds d _ h1 h2 h3 h4 h5
+    (List.getElem?_eq_getElem hj)⟩
+
+theorem planGroup_isSome (mm : Nat) (G : GroupDec) (datas : List (List Nat))
+    (hmm : Ragc.Gen.lzHashingStep ≤ mm) (hne : datas ≠ []) : ∃ P, planGroup mm G datas = some P := by
+  unfold planGroup
+  by_cases hg : G.id ≥ 16
+  · rw [if_pos hg]
+    cases datas with
+    | nil => exact absurd rfl hne
+    | cons ref rest =>
+      simp only []
+      obtain ⟨deltas, hd⟩ : ∃ deltas, encodeAll mm ref rest = some deltas :=
+        mapM_isSome _ rest (fun t _ => Ragc.Model.LzDiff.encodeExact_isSome mm ref t hmm)
+      rw [hd]
+      exact ⟨_, rfl⟩
+  · rw [if_neg hg]
+    exact ⟨_, rfl⟩
+
+/-- **The planner answers** for every group of well-formed decisions as soon as
+`min_match_len ≥ HASHING_STEP` (= 4; C09 `encode_total`): the hypothesis "the writer answers" of the
+`archOf`-level theorems can be replaced by this inequality. -/
+theorem planned_of_minMatch (cfg : Cfg) (inp : List Writer.Sample) (dec : Decisions) (hok : DecOK cfg inp dec)
+    (hmm : Ragc.Gen.lzHashingStep ≤ cfg.minMatch) : Planned cfg inp dec := by
+  intro G hG
+  obtain ⟨_, hne, _, hmem⟩ := hok.groups G hG
+  obtain ⟨datas, hdat⟩ := mapM_isSome (lookup3 (storedAll cfg.k inp dec)) G.members (by
+    intro r hr
+    obtain ⟨j, hj⟩ := List.mem_iff_getElem?.mp hr
+    obtain ⟨d, hl, _, _⟩ := hmem (r, j) (List.mem_zipIdx_iff_getElem?.mpr hj)
+    exact stored_of_piece cfg inp dec hok r d hl)
+  have hdl := (mapM_option_spec _ _ _ hdat).1
+  have hdne : datas ≠ [] := by
+    intro hc
+    rw [hc] at hdl
+    exact hne (List.eq_nil_of_length_eq_zero hdl.symm)
+  obtain ⟨P, hP⟩ := planGroup_isSome cfg.minMatch G datas hmm hdne
+  exact ⟨P, by simp only [planOf, hdat, Option.bind_some, hP]⟩
 
 /-! ## well-formedness -/
 
@@ -983,18 +1054,17 @@ theorem contig_range_view (cfg : Cfg) (inp : List Writer.Sample) (dec : Decision
     rw [answer_contigRange _ _ _ _ _ _ hd hl, hv, hk]
   · rw [answer_contigLength _ _ _ _ hd, hv, hk]
 
-/-- **`get_sample` = all contigs of the sample, names and bases, in order.** -/
-theorem answer_getSample_written (cfg : Cfg) (inp : List Writer.Sample) (dec : Decisions)
+/-- `get_sample`'s loop returns all contigs of the sample, names and bases, in order. -/
+theorem answerSample_written (cfg : Cfg) (inp : List Writer.Sample) (dec : Decisions)
     (hok : DecOK cfg inp dec) (hcodes : codesOK inp) (hpl : Planned cfg inp dec) (hnd : NamesDistinct inp)
     (smp : Writer.Sample) (hs : smp ∈ inp) :
-    answer (archOf cfg inp dec) (.getSample smp.name)
-      = .ok (.sample (smp.contigs.map fun c => (c.name, c.data))) := by
+    answerSample (archOf cfg inp dec) smp.name = .ok (smp.contigs.map fun c => (c.name, c.data)) := by
   obtain ⟨s, dcs, h1, h3, hsh⟩ := sample_index cfg inp dec hok smp hs
   have hco := contigsOf_archOf cfg inp dec s smp.name smp dcs h1 h3 (lookup_sample inp hnd.1 s smp h1)
   have hlen : (contigListOf cfg inp dec smp dcs).length = smp.contigs.length := by
     have := congrArg List.length (contigListOf_names cfg inp dec smp dcs hsh)
     simpa using this
-  have := answerSample_ok (archOf cfg inp dec) smp.name _ (smp.contigs.map fun c => (c.name, c.data)) hco
+  exact answerSample_ok (archOf cfg inp dec) smp.name _ (smp.contigs.map fun c => (c.name, c.data)) hco
     (by simpa using hlen) (by
       intro i hi ho
       simp only [List.length_map] at ho
@@ -1011,7 +1081,22 @@ theorem answer_getSample_written (cfg : Cfg) (inp : List Writer.Sample) (dec : D
       have hk : (archOf cfg inp dec).k = cfg.k := rfl
       rw [hk, (views_of_tiles cfg.k _ _ ht).2.2]
       rfl)
-  simp only [answer, this, mapRes]
+
+/-- **`get_sample` = all contigs of the sample, names and bases, in order.** -/
+theorem answer_getSample_written (cfg : Cfg) (inp : List Writer.Sample) (dec : Decisions)
+    (hok : DecOK cfg inp dec) (hcodes : codesOK inp) (hpl : Planned cfg inp dec) (hnd : NamesDistinct inp)
+    (smp : Writer.Sample) (hs : smp ∈ inp) :
+    answer (archOf cfg inp dec) (.getSample smp.name)
+      = .ok (.sample (smp.contigs.map fun c => (c.name, c.data))) := by
+  simp only [answer, answerSample_written cfg inp dec hok hcodes hpl hnd smp hs, mapRes]
+
+/-- **`write_sample_fasta` writes the FASTA text of the sample's contigs** (`>name`, lines of 80). -/
+theorem answer_writeFasta_written (cfg : Cfg) (inp : List Writer.Sample) (dec : Decisions)
+    (hok : DecOK cfg inp dec) (hcodes : codesOK inp) (hpl : Planned cfg inp dec) (hnd : NamesDistinct inp)
+    (smp : Writer.Sample) (hs : smp ∈ inp) :
+    answer (archOf cfg inp dec) (.writeSampleFasta smp.name)
+      = .ok (.file (fastaBytes (smp.contigs.map fun c => (c.name, c.data)))) := by
+  simp only [answer, answerSample_written cfg inp dec hok hcodes hpl hnd smp hs, mapRes]
 
 /-- An unknown contig name of a known sample: the lookup fails with `err`. -/
 theorem unknownContig_written (cfg : Cfg) (inp : List Writer.Sample) (dec : Decisions)
@@ -1025,6 +1110,28 @@ theorem unknownContig_written (cfg : Cfg) (inp : List Writer.Sample) (dec : Deci
   apply hc
   rw [← contigListOf_names cfg inp dec smp dcs hsh, ← hxc]
   exact List.mem_map.mpr ⟨x, hx, rfl⟩
+
+/-- **"Every catalogue and extraction query returns the input's data"** on handle state `st` of the
+archive content `A`:
+* `list_samples` = the sample names of `inp`, in order;
+* for every sample of `inp`: `list_contigs` = its contig names in order; `get_sample` = all its
+  contigs (name, bases) in order; `write_sample_fasta` = the FASTA text of these; `get_contig` of each
+  of its contigs = `ok` of exactly that contig's bases; `get_contig` with a contig name the sample
+  does not have = `err`;
+* for a sample name `inp` does not have: `list_contigs`, `get_sample`, `get_contig` = `err`.
+(Range and length queries: `Props.C07.range_on_written_archive`.) -/
+def AnswersInput (A : Arch) (inp : List Writer.Sample) (st : State) : Prop :=
+  (step A st .listSamples).2 = .ok (.names (inp.map (·.name))) ∧
+  (∀ smp ∈ inp,
+    (step A st (.listContigs smp.name)).2 = .ok (.names (smp.contigs.map (·.name))) ∧
+    (step A st (.getSample smp.name)).2 = .ok (.sample (smp.contigs.map fun c => (c.name, c.data))) ∧
+    (step A st (.writeSampleFasta smp.name)).2
+      = .ok (.file (fastaBytes (smp.contigs.map fun c => (c.name, c.data)))) ∧
+    (∀ ctg ∈ smp.contigs, (step A st (.getContig smp.name ctg.name)).2 = .ok (.bases ctg.data)) ∧
+    (∀ c, c ∉ smp.contigs.map (·.name) → (step A st (.getContig smp.name c)).2 = .err)) ∧
+  (∀ s, s ∉ inp.map (·.name) →
+    (step A st (.listContigs s)).2 = .err ∧ (step A st (.getSample s)).2 = .err ∧
+    ∀ c, (step A st (.getContig s c)).2 = .err)
 
 /-! ## the small concrete input of `Props.C01.read_write`'s example (shared by the non-vacuity
 examples of `Props/C07.lean` and `Props/C08.lean`) -/
